@@ -120,7 +120,11 @@ def rejectTx (r : R) (k : Key) (p : Params) (rejectTo : Option Marker) (now : In
 
 def reject (r : R) (k : Key) (now : Int) (cronNext : String → Int → Int) : R :=
   let h := getHash r (k.prio, k.short)
-  rejectTx r k (h.params.getD {}) h.rejectTo now cronNext
+  -- `fix:` b48c052 / its follow-up: without data (already acknowledged) or without the take marker (already nacked, rejected
+  -- or requeued) the message is not held and nothing is given back; before them the name was queued (again)
+  match h.params, h.rejectTo with
+  | some p, some m => rejectTx r k p (some m) now cronNext
+  | _, _ => r
 
 def requeueTx (r : R) (k : Key) (payload : String) (p : Params) (now : Int) (cronNext : String → Int → Int) : R :=
   let h := getHash r (k.prio, k.short)
